@@ -611,6 +611,16 @@ class CallMixin:
                 if m == 'starts_with' and self.tyof(args[0]).kind == 'ptr':
                     o = self.hoist_pure(bt, obj)
                     return f'(cxx_rfind0_cstr({o}.p, {o}.n, {A(0)}) == 0)'
+        if bt.strip_ref().kind == 'ptr' and fam not in ('iter',):
+            # smart pointers lowered to plain pointers
+            if m == 'operator bool':
+                return f'(({obj}) != 0)'
+            if m in ('lock', 'get') and not args:
+                return f'({obj})'
+            if m == 'reset' and not args:
+                return f'(({obj}) = 0)'
+            if m == 'expired' and not args:
+                return f'(({obj}) == 0)'
         if fam == 'oss':
             if m == 'str' and not args:
                 self.helpers.add('str')
@@ -838,6 +848,16 @@ class CallMixin:
                 return f'{self.ex(args[0])}[{self.ex(args[1])}]'
         if op in ('++', '--') and f0 == 'iter':
             return f'({op}{self.ex(args[0])})' if len(args) == 1 else f'({self.ex(args[0])}{op})'
+        if t0.strip_ref().kind == 'ptr':
+            # smart pointers lowered to plain pointers (shared_ptr / weak_ptr)
+            if len(args) == 1 and op == '->':
+                return self.ex(args[0])
+            if len(args) == 1 and op == '*':
+                return deref(self.ex(args[0]))
+            if len(args) == 2 and op == '=':
+                return f'({self.ex(args[0])} = {self.value_of(args[1])})'
+            if len(args) == 2 and op in ('==', '!='):
+                return f'({self.ex(args[0])} {op} {self.value_of(args[1])})'
         raise LoweringError(f'no rule for operator{op} on {t0!r} in {self.cur["name"]}')
 
     def rec_eq(self, t, a, b):
@@ -983,6 +1003,13 @@ class CallMixin:
             return self.zero(t)
         a0t = self.tyof(args[0])
         f0 = self.family(a0t)
+        if t.strip_ref().kind == 'ptr' and len(args) == 1:
+            # a lowered smart pointer constructed from nullptr, from another smart pointer (shared from weak, weak from shared) or from
+            # a raw pointer: the pointer value
+            if repr(a0t.strip_ref()) == 'std::nullptr_t':
+                return '0'
+            if a0t.strip_ref().kind == 'ptr':
+                return self.value_of(args[0])
         if fam == 'optional' and repr(a0t.strip_ref()) == 'std::nullopt_t':
             return f'(({self.ctype(t)}){{0}})'
         if len(args) == 1 and self.same_ctype(a0t.strip_ref(), t):
